@@ -271,3 +271,89 @@ def access_paths(fn, op, extra_transparent=None, depth=6):
             out.add((r, p + suffix))
     go(op, depth, ())
     return out
+
+
+def enumerate_paths(fn, start, targets, avoid=(), limit=20000):
+    """Acyclic normal-edge paths from `start` to any block of `targets` that never enter `avoid`.
+    Each path is a list of (block, successor) edges. Constant bool temporaries (`_t = const true; switch _t`) are
+    followed only along their feasible edge. Raises OverflowError beyond `limit` paths (the caller reports undecided)."""
+    targets = set(targets)
+    avoid = set(avoid)
+    out = []
+
+    def consts_in(b, env):
+        env = dict(env)
+        for s in fn.blocks[b]["s"]:
+            if s[0] == "=" and not s[1][1]:
+                rv = s[2]
+                if rv[0] == "use" and rv[1][0] == "k" and "int" in rv[1][1]:
+                    env[s[1][0]] = str(rv[1][1]["int"])
+                elif rv[0] == "use" and rv[1][0] != "k" and not rv[1][1][1] and rv[1][1][0] in env:
+                    env[s[1][0]] = env[rv[1][1][0]]
+                else:
+                    env.pop(s[1][0], None)
+        t = fn.blocks[b]["t"]
+        if t["t"] == "call" and not t["dst"][1]:
+            env.pop(t["dst"][0], None)
+        return env
+
+    def succs(b, env):
+        t = fn.blocks[b]["t"]
+        if t["t"] == "sw" and t["on"][0] != "k" and not t["on"][1][1] and t["on"][1][0] in env and not t.get("enum"):
+            v = env[t["on"][1][0]]
+            for val, tgt, vn in t["vals"]:
+                if str(val) == v:
+                    return [tgt]
+            return [t["else"]]
+        return [s for s in fn.succ[b]]
+
+    def dfs(b, path, seen, env):
+        if len(out) > limit:
+            raise OverflowError("too many paths")
+        if b in targets and path:
+            out.append(list(path))
+            return
+        env2 = consts_in(b, env)
+        for s in succs(b, env2):
+            if s in avoid or s in seen or fn.blocks[s].get("cu"):
+                continue
+            path.append((b, s))
+            seen.add(s)
+            dfs(s, path, seen, env2)
+            seen.discard(s)
+            path.pop()
+
+    dfs(start, [], {start}, {})
+    return out
+
+
+def path_facts(fn, path, depth=14):
+    """Semantic facts established by the branch outcomes along one path (see mirlib.Sem.facts for the vocabulary)."""
+    sem = Sem(fn, depth)
+    atoms = set()
+    for b, s in path:
+        t = fn.blocks[b]["t"]
+        if t["t"] == "sw":
+            on = t["on"]
+            if t.get("enum"):
+                pk = place_key(t["of"])
+                hit = [vn for v, tgt, vn in t["vals"] if tgt == s]
+                if len(hit) == 1 and not (s == t["else"] and len(hit) == 0):
+                    atoms.add(("variant", pk, hit[0]))
+                elif s == t["else"]:
+                    rest = [vn for vn in t.get("variants", []) if vn not in [x[2] for x in t["vals"]]]
+                    if len(rest) == 1:
+                        atoms.add(("variant", pk, rest[0]))
+            elif on[0] != "k" and not on[1][1]:
+                l = on[1][0]
+                hit = [v for v, tgt, vn in t["vals"] if tgt == s]
+                if t.get("ty") == "bool" or fn.ty(l) == "bool":
+                    if hit and s != t["else"]:
+                        atoms.add(("val", l, str(hit[0]) != "0"))
+                    elif s == t["else"] and len(t["vals"]) == 1:
+                        atoms.add(("val", l, str(t["vals"][0][0]) == "0"))
+        elif t["t"] == "call":
+            atoms.add(("calledbb", b))
+            if t.get("callee"):
+                atoms.add(("called", t["callee"]))
+    return sem.facts(atoms) | {a for a in atoms if a[0] in ("called",)}
